@@ -415,9 +415,16 @@ func (ri *recvInst) DoReader(method, path string, body io.Reader, hdr map[string
 type gatedBody struct {
 	gate chan struct{}
 	rd   *bytes.Reader
+	// eofOnly: all bytes arrive at once, only the end of the body (EOF) is held back by the gate: the
+	// receiver has parsed, numbered and written the whole segment while the request is still open
+	eofOnly bool
 }
 
 func (g *gatedBody) Read(p []byte) (int, error) {
+	if g.eofOnly && g.rd.Len() > 0 {
+		n, _ := g.rd.Read(p)
+		return n, nil
+	}
 	<-g.gate
 	return g.rd.Read(p)
 }
